@@ -20,7 +20,7 @@ MANIFEST = {
                  "metamorphic comparison under a float32 error model with float64 margin analysis for discrete outputs",
     "text": "Non-periodic: 2 structures (2EQQ model with hydrogens, ACE-ALA-NME) x 30 rotations (quick 9) x translations "
             "{0, 0.37, 10, 300} nm: distances, angles, dihedrals (sign and magnitude), RMSD to a co-moved reference, Rg, "
-            "gyration-tensor eigenvalues, principal moments, residue contacts, DRID, Kabsch-Sander energies/pattern, DSSP, "
+            "gyration-tensor eigenvalues, principal moments, mass-weighted Rg / inertia eigenvalues / centre-of-mass distance, residue contacts, DRID, Kabsch-Sander energies/pattern, DSSP, "
             "baker_hubbard and wernet_nilsson sets, neighbour sets, SASA (translation: float32 model; rotation: within the "
             "quadrature bound 2*4*pi*R^2/sqrt(n) per atom). Periodic: an 11-atom 3-molecule system in the cells of the menu "
             "(quick 6+unreduced, thorough all) x every single-atom shift by n in {-2..2}^3 (124 per atom) and whole-system "
